@@ -262,6 +262,13 @@ def fam_views(cfg, tier, rng):
                 # the (dangling) storage pointer after the capacity went back to zero
                 out.append(pre + ["clear e 0", "shrink_to_fit 0", "views 0", "push e 0 w", "views 0", "dropvec 0"])
                 out.append(pre + ["clear e 0", "shrink_to 0 0", "views 0", "dropvec 0"])
+                # a capacity request that is rejected (byte size overflows) must leave capacity and views alone
+                if cfg["sz"] > 0:
+                    for big in (min(USIZE_MAX, USIZE_MAX // cfg["sz"] + 1), (2**63 - 1) // cfg["sz"] + 1, USIZE_MAX):
+                        if not (big * cfg["sz"] > 2**63 - 1 - (cfg["al"] - 1) or n + big > USIZE_MAX):
+                            continue      # a valid but unservable request aborts the process (handle_alloc_error)
+                        out.append(pre + ["reserve 0 %d" % big, "views 0", "push e 0 w", "views 0", "dropvec 0"])
+                        out.append(pre + ["reserve_exact 0 %d" % big, "views 0", "spare_write e 0 0", "views 0", "dropvec 0"])
         cap = fixed_cap(cfg["be"], cfg["sz"])
         for k in range(0, 4):
             if cap is not None and n + k > cap:
@@ -486,6 +493,18 @@ def fam_lazyfuse(cfg, tier, rng):
                 out.append(pre + hd + ["fuse=0 insert e 0 %d lz:1:1:0" % i] + post)
     return out
 
+def fam_clonefuse(cfg, tier, rng):
+    """C05/C08: the k-th element Clone of a whole-vector clone panics (the half-built copy is dropped)."""
+    if not cloneable(cfg):
+        return []
+    L = 3 if tier == "quick" else 5
+    out = []
+    for n in range(1, max_len(cfg, L) + 1):
+        pre = prefix(cfg, [n, 0])
+        for k in range(0, n + 1):
+            out.append(pre + ["fuse=%d clone 0 2" % k, "iter ref 0 FFFFFF"] + usable_after(cfg, [0, 1]))
+    return out
+
 def fam_liar(cfg, tier, rng):
     """C06: replacement iterators whose len() is off by -2..=+2 (with and without a fuse)."""
     L = 3 if tier == "quick" else 4
@@ -703,6 +722,7 @@ FAMILIES = {
     "placement": fam_placement,
     "fuse": fam_fuse,
     "lazyfuse": fam_lazyfuse,
+    "clonefuse": fam_clonefuse,
     "liar": fam_liar,
     "forget": fam_forget,
     "lazy": fam_lazy,
